@@ -4,6 +4,7 @@ from fractions import Fraction
 from .. import common as C, gen, build
 from ..check import Prop, Op
 from .. import gen_cons as G
+from .. import gen_sets
 
 
 def lossy_rows(t, n):
@@ -91,14 +92,28 @@ def check_jacobians(cons, x, m, rng, label, x_eval=None, fd=True):
   out = []
   h = 1e-5
   dirs = directions(rng, m)
+  # every Jacobian of the list is asked for BEFORE any of them is converted or copied: results handed back through a shared
+  # buffer would all show the last one
+  raw = {}
   for ci, c in enumerate(cons):
     if 'jac' not in c:
       continue
     try:
-      J = np.asarray(c['jac'](x if x_eval is None else x_eval), dtype=float)
-      Jf = np.asarray(c['jac'](x), dtype=float) if x_eval is not None else J
+      raw[ci] = (c['jac'](x if x_eval is None else x_eval), c['jac'](x) if x_eval is not None else None)
     except Exception as e:
+      raw[ci] = e
+  for ci, c in enumerate(cons):
+    if ci not in raw:
+      continue
+    if isinstance(raw[ci], Exception):
+      e = raw[ci]
       out.append(('jac-raises', '%s: constraints[%d].jac raised %s: %s' % (label, ci, type(e).__name__, str(e)[:100])))
+      continue
+    try:
+      J = np.array(raw[ci][0], dtype=float)
+      Jf = np.array(raw[ci][1], dtype=float) if x_eval is not None else J
+    except Exception as e:
+      out.append(('jac-raises', '%s: constraints[%d].jac returned something that is not an array: %s' % (label, ci, str(e)[:100])))
       continue
     if J.reshape(-1).size != m:
       out.append(('jac-shape', '%s: constraints[%d].jac has %d entries (shape %s) for %d flow variables' % (label, ci, J.size, J.shape, m)))
@@ -133,22 +148,24 @@ class C06(Prop):
   lean_module = 'DK.Props.C06'
   uses_t1 = True      # T1v regenerates DK/Gen/Vec.lean from the current source before the bridge is audited
   bridge = ['DK.BridgeVec.Device_constraints_jac0', 'DK.BridgeVec.Device_constraints_jac1', 'DK.BridgeVec.SDevice_constraints_jac0',
-            'DK.BridgeVec.SDevice_constraints_jac1', 'DK.BridgeVec.SDevice_constraints_jac4', 'DK.BridgeVec.SDevice_constraints_soc'] + ['DK.BridgeSets.Device_constraints', 'DK.BridgeSets.SDevice_constraints']   # T1v: the exported `jac` closures
+            'DK.BridgeVec.SDevice_constraints_jac1', 'DK.BridgeVec.SDevice_constraints_jac4', 'DK.BridgeVec.SDevice_constraints_soc'] + ['DK.BridgeSets.Device_constraints', 'DK.BridgeSets.SDevice_constraints',
+               'DK.BridgeSets.MFDeviceSet_constraints', 'DK.BridgeSets.MFDeviceSet_constraints_ofMF', 'DK.BridgeSets.TwoRatioMFDeviceSet_constraints']   # T1v: the exported `jac` closures; T1s: the whole lists of leaves and adaptors
   theorems = ['DK.C06.device_jac_affine', 'DK.C06.device_jac_isGrad', 'DK.C06.cbound_jac_support',
               'DK.C06.sdevice_jac_isGrad', 'DK.C06.soc_jac_support', 'DK.C06.soc_jac_affine', 'DK.C06.leaf_jac_isGrad',
               'DK.C06.toM_isMGrad', 'DK.C06.toM_jac_support', 'DK.C06.overConduits_jac_tiled', 'DK.C06.overConduits_isMGrad',
               'DK.C06.sbound_jac_affine', 'DK.C06.sbound_jac_support', 'DK.C06.ratio_jac_affine', 'DK.C06.ratio_jac_support',
               'DK.C06.lift_isMGrad', 'DK.C06.lift_jac_support', 'DK.C06.lift_ok', 'DK.C06.ownCons_isMGrad',
               'DK.C06.ofLeaf_isMGrad', 'DK.C06.ofMF_isMGrad', 'DK.C06.tree_cons_isMGrad', 'DK.C06.shipped_tree_isMGrad']
-  rule = ('leaf cases: every atomic class x cumulative-bound form x storage variants x ADevice user constraints (as C03); tree cases: random '
+  rule = ('leaf cases: every atomic class (plus the unmodelled WindowDevice, and ADevices with a quadratic user constraint whose Jacobian depends on the flow: oracle only) x cumulative-bound form x storage variants x ADevice user constraints (as C03); tree cases: random '
           'asymmetric trees (depth 1..3, fan-out 1..3, children with different row counts) with multi-flow adaptors (1..3 conduits, wrapped '
-          'device with cumulative bounds / user constraints; 40 % around a charge-only or discharge-only storage, mostly lossy, or a thermal device) and two-ratio sets (eq / ineq), aggregate bounds (equality and range), '
-          'sub-balanced sets; two-ratio vector handed over as list / tuple / int ndarray / float ndarray; two dyadic probe matrices (zeros included for T2) plus one all-integer '
+          'device with cumulative bounds / user constraints; 40 % around a charge-only or discharge-only storage, mostly lossy, or a thermal device) and two-ratio sets (eq / ineq, ratios of either sign), aggregate bounds (equality and range), '
+          'sub-balanced sets; two-ratio vector handed over as list / tuple / int ndarray / float ndarray; two dyadic probe matrices (zeros included for T2; the second one just outside the box, on the other side of zero, for an adaptor around a lossy one-way storage) plus one all-integer '
           'probe passed as an INTEGER-typed array; flows presented flat or (R, n) / (n,) or (1, n); .constraints read once or twice. non-trivial: the tree has >= 2 rows and some constraint with a '
           'Jacobian reads >= 2 variables')
   sizes = {'quick': 700, 'thorough': 6000}
   assumptions = ['oracle: central finite differences (h=1e-5 and 8e-5; entries where the two disagree are kinks and skipped) along every '
                  'coordinate when R*n <= 16, else 6 coordinates + 10 dense random directions; lossy-storage rows are moved off 0 first',
+                 'oracle: every Jacobian of a list is asked for before any is converted (shared buffers), and a list already asked at one flow must answer at another like a freshly read list (memoisation)',
                  'oracle glue checks: first and second read of .constraints are each checked by finite differences; the Jacobian at an integer-typed flow must equal the '
                  'Jacobian at the same flow as float (and the finite differences, unless that flow sits on a storage kink); caller-owned arrays (ratios, aggregate bounds) must be unchanged afterwards',
                  'T2 compares (type, has-Jacobian, value, flat Jacobian) per constraint at the probes as a multiset: each model row is paired with the nearest unused implementation row of the same length']
@@ -172,10 +189,18 @@ class C06(Prop):
         probes = [[C.fs(v) for v in gen.gen_flow(rng, lb, hb, m)] for m in ('interior', 'mixed')]
         lossy = d['cls'] == 'SDevice' and d['prm'].get('efficiency', '1') != '1'
         ip = [str(v) for v in G.int_flow(rng, lb, hb, range(d['n']) if lossy else ())]
-        out.append({'kind': 'leaf', 'dev': d, 'probes': probes, 'iprobe': ip, '_shape': rng.choice(['flat', 'row']), '_reads': rng.choice([1, 2]),
-                    'tag': tag, 'oseed': rng.randrange(1 << 30)})
+        case = {'kind': 'leaf', 'dev': d, 'probes': probes, 'iprobe': ip, '_shape': rng.choice(['flat', 'row']), '_reads': rng.choice([1, 2]),
+                'tag': tag, 'oseed': rng.randrange(1 << 30)}
+        if d['cls'] == 'ADevice' and rng.random() < 0.4:
+          d['ucons'] = G.gen_ucons(rng, d['n'], lb, hb, quad=True)      # a user Jacobian that depends on the flow
+        if d['cls'] == 'WindowDevice' or G.has_quad(d):
+          case['oracle_only'] = True                                  # no model of the class / of the quadratic constraint
+        if any(u.get('_noflat') is not None for u in (d.get('ucons') or [])):
+          case['_shape'] = 'flat'
+        out.append(case)
       else:
         t, n = gen.gen_tree(rng, tier, want_mf=rng.random() < 0.7)
+        oracle_only = False
         for b in gen.tree_leaves(t):
           if b['k'] == 'mf' and rng.random() < 0.4:
             b['dev'] = one_way_device(rng, tier, n)        # an adaptor around a charge-only / discharge-only storage, or a thermal device
@@ -187,17 +212,32 @@ class C06(Prop):
             rows, pyform, _ = G.gen_cbound_form(rng, n, lb, hb)
             d['cbs'] = [[C.fs(r[0]), C.fs(r[1]), r[2], r[3]] for r in rows]; d['_py']['cform'] = pyform
           if b['k'] == 'mf' and b.get('ratios'):
-            if rng.random() < 0.3:
+            gen_sets.set_ratios(rng, b)          # either sign, some not dyadic, every sequence form (`_rform`)
+            if rng.random() < 0.25:
               b['ratios'] = [str(rng.randint(1, 3)), str(rng.randint(1, 8))]     # integer-valued, as in the sample scenarios ([1, 8])
-            b['_py'] = {'rform': rng.choice(G.RATIO_FORMS)}
+              b['_rform'] = rng.choice(gen_sets.RATIO_FORMS + (['uint-ndarray']*3 if G.family('uint_ratios') else []))
+          if d['cls'] == 'ADevice':
+            lb = [C.F(x) for x in d['lb']]; hb = [C.F(x) for x in d['hb']]
+            if 'ucons' in d or rng.random() < 0.3:
+              quad = rng.random() < 0.3
+              d['ucons'] = [u for u in G.gen_ucons(rng, n, lb, hb, quad=quad) if u.get('_noflat') is None]
+              oracle_only = oracle_only or quad
         probes = [gen.tree_flow(rng, t, n, m) for m in ('interior', 'mixed')]
+        # flows are not only the feasible ones: where an adaptor wraps a lossy one-way storage, the second probe puts the conduit
+        # sum just OUTSIDE the box on the other side of zero (a charge-only storage asked to discharge a little, and vice versa)
+        for (r0, k, sign) in mf_lossy_blocks(t, n):
+          for i in range(n):
+            others = sum((C.F(probes[1][r0 + r][i]) for r in range(1, k)), C.F(0))
+            probes[1][r0][i] = C.fs(-others - C.F(sign)*Fraction(1, 4))
         blb, bhb = gen.tree_box(t, n)
         R = gen.tree_rows(t)
         flat = G.int_flow(rng, blb, bhb, set(r*n + i for r in lossy_rows(t, n) for i in range(n)))
         ip = [[str(v) for v in flat[r*n:(r + 1)*n]] for r in range(R)]
         out.append({'kind': 'tree', 'tree': t, 'n': n, 'probes': probes, 'iprobe': ip, '_shape': rng.choice(['flat', 'flat', 'matrix']),
                     '_reads': rng.choice([1, 2]), 'oseed': rng.randrange(1 << 30)})
-    G.prefetch([self.line(c) for c in out])
+        if oracle_only:
+          out[-1]['oracle_only'] = True
+    G.prefetch([self.line(c) for c in out if not c.get('oracle_only')])
     return out
 
   def line(self, case):
@@ -222,6 +262,8 @@ class C06(Prop):
     return P
 
   def ops(self, case):
+    if case.get('oracle_only'):
+      return []
     line = self.line(case)
     mrows = G.model_rows(line)
     P = self.impl_probes(case)
@@ -239,9 +281,14 @@ class C06(Prop):
     fails = []
     sh = self.shaper(case)
     owned = []
+    suffix = ''
     if case['kind'] == 'leaf':
       d = case['dev']; n = m = d['n']
-      dev = G.build_dev(d, 'dev')
+      try:
+        dev = G.build_dev(d, 'dev')
+      except Exception as e:
+        return [{'key': {'cls': d['cls'], 'kind': 'construction-raises'}, 'detail': '%s n=%d cbounds=%s (%s rows): constructing the device raised %s: %s'
+                 % (d['cls'], n, d.get('cbs'), d.get('_py', {}).get('crows', 'tuple'), type(e).__name__, str(e)[:160])}]
       lossy = d['cls'] == 'SDevice' and d['prm'].get('efficiency', '1') != '1'
       self.bump('leaf:' + d['cls'])
       cls = d['cls']
@@ -256,7 +303,7 @@ class C06(Prop):
         self.bump('tree:mf')
       for b in gen.tree_leaves(t):
         if b['k'] == 'mf' and b.get('ratios'):
-          self.bump('tree:ratio:' + b.get('_py', {}).get('rform', 'list'))
+          self.bump('tree:ratio:%s:%s' % (b.get('_rform', 'list'), 'signed' if any(x.startswith('-') for x in b['ratios']) else 'positive'))
       idx = [r*n + i for r in lossy_rows(t, n) for i in range(n)]
       mfl = mf_lossy_blocks(t, n)
       if mfl:
@@ -265,8 +312,11 @@ class C06(Prop):
         self.bump('tree:mf-around-thermal')
       cls = type(dev).__name__
       label = '%s (%d rows x %d slots)' % (cls, R, n)
+      if any(b.get('_rform') == 'uint-ndarray' for b in gen.tree_leaves(t)):
+        suffix = '-uint-ratios'      # family uint_ratios (a defect of the unchanged tree): its own failure kind, so that a known-finding entry can be narrow
       fix = lambda x: off_sum_kink(off_kink(x, idx), n, mfl)
     snap = [a.copy() for _, a in owned]
+    kindof = lambda kind: kind + (suffix if kind == 'jacobian' else '')
     # the finite differences perturb a flat float copy; every constraint is called with the shape (and, for the integer probe, the dtype) the caller uses
     wrap = lambda cons: [dict(c, fun=(lambda y, f=c['fun']: f(sh(y))), **({'jac': (lambda y, j=c['jac']: j(sh(y)))} if 'jac' in c else {})) for c in cons]
     reads = [dev.constraints, dev.constraints]
@@ -277,14 +327,28 @@ class C06(Prop):
         break
       x = fix(build.arr(S).reshape(-1).astype(float))
       for kind, detail in check_jacobians(wrap(reads[pi % 2]), x, m, rng, '%s, read %d of .constraints' % (label, pi % 2 + 1)):
-        fails.append({'key': {'cls': cls, 'kind': kind}, 'detail': detail})
+        fails.append({'key': {'cls': cls, 'kind': kindof(kind)}, 'detail': detail})
+    if len(case['probes']) >= 2 and not fails:
+      # a list that has already been asked at the first probe must answer at the second one like a freshly read list does
+      x1 = fix(build.arr(case['probes'][1]).reshape(-1).astype(float))
+      for ci, (c0, c1) in enumerate(zip(wrap(reads[0]), wrap(dev.constraints))):
+        if 'jac' in c0 and 'jac' in c1:
+          try:
+            j0 = np.array(c0['jac'](x1), dtype=float).reshape(-1); j1 = np.array(c1['jac'](x1), dtype=float).reshape(-1)
+          except Exception:
+            continue
+          if j0.shape != j1.shape or np.abs(j0 - j1).max() > 1e-12:
+            fails.append({'key': {'cls': cls, 'kind': 'jac-stale'},
+                          'detail': '%s: constraints[%d].jac, already asked at x0=%s, returns %s at x1=%s where a freshly read list returns %s'
+                                    % (label, ci, np.round(fix(build.arr(case['probes'][0]).reshape(-1).astype(float)), 6).tolist(), np.round(j0, 9).tolist(), np.round(x1, 6).tolist(), np.round(j1, 9).tolist())})
+            break
     if case.get('iprobe') and not fails:
       xi = np.array(build.jf(case['iprobe']), dtype=float).reshape(-1).astype(int)
       xf = xi.astype(float)
       on_kink = bool(np.abs(fix(xf) - xf).max() > 0) if m else False
       self.bump('int-probe:' + ('metamorphic-only' if on_kink else 'fd+metamorphic'))
       for kind, detail in check_jacobians(wrap(reads[1]), xf, m, rng, '%s, read 2 of .constraints' % label, x_eval=xi, fd=not on_kink):
-        fails.append({'key': {'cls': cls, 'kind': kind}, 'detail': detail})
+        fails.append({'key': {'cls': cls, 'kind': kindof(kind)}, 'detail': detail})
     for (name, a), before in zip(owned, snap):
       if a.shape != before.shape or not np.array_equal(a, before):
         fails.append({'key': {'cls': cls, 'kind': 'caller-array-mutated'},
